@@ -890,8 +890,13 @@ def sqrt_rational(q):
     n = q.numerator * q.denominator      # sqrt(a/b) = sqrt(ab)/b
     fs = _factor_squarefree(n)
     if fs is None:
-        x = Sym.const(q)
-        return Sym.of_id(T.defined("sqrt", x.key(), x))
+        # the squarefree part is not found by trial division: such constants only arise from floating-point library results
+        # (numeric eigendecompositions of concrete matrices); their square root is taken to 50 significant digits (a rational)
+        import decimal
+        with decimal.localcontext() as ctx:
+            ctx.prec = 60
+            r = (decimal.Decimal(q.numerator) / decimal.Decimal(q.denominator)).sqrt()
+        return Sym.const(Fraction(r).limit_denominator(10 ** 50))
     s, primes = fs
     out = Sym.const(Fraction(s, q.denominator))
     for p in primes:
